@@ -114,6 +114,7 @@ let item16 v = match lst v with
   | [k; ib; ie; body] when str k = "TB" -> RefExpand16.TransBlock (str ib, str ie, List.map titem (lst body))
   | [k; s] when str k = "X" -> RefExpand16.Text (str s)
   | [k; l] when str k = "I" -> RefExpand16.InitLine (uline l)
+  | [k; pre; ee] when str k = "T" -> RefExpand16.TableLine (str pre, str ee = "1")
   | [k; kd; body] when str k = "B" -> RefExpand16.Block (ekind kd, "", "", ulines body)
   | [k; kd; ib; ie; body] when str k = "B" -> RefExpand16.Block (ekind kd, str ib, str ie, ulines body)
   | [k; body] when str k = "S" -> RefExpand16.SigBlock ("", "", ulines body)
